@@ -206,6 +206,10 @@ class SceneGraph:
         copied.transforms = deepcopy(self.transforms)
         return copied
 
+    def __deepcopy__(self, *args):
+        # the cache may hold views that can't be pickled
+        return self.copy()
+
     def to_flattened(self):
         """
         Export the current transform graph with all
